@@ -48,10 +48,15 @@ def computeConfig (rules : List Rule) (dflt : Bool) (id : Ident) : Bool :=
 /-- provider state: the instances created so far, in creation order (each with the identity it was created for) -/
 abbrev Instances := List Ident
 
+/-- position of the first instance created for identity `id` (the `for (auto &tracer : tracers_) if (…equal(…)) return` loop) -/
+def indexOf? : Instances → Ident → Option Nat
+  | [], _ => none
+  | x :: rest, id => if x = id then some 0 else (indexOf? rest id).map (· + 1)
+
 /-- `Get{Tracer,Meter,Logger}`: the first existing instance with this identity, else a new one appended.
     Returns the new state and the index of the instance handed out. -/
 def getInstance (st : Instances) (id : Ident) : Instances × Nat :=
-  match st.findIdx? (· == id) with
+  match indexOf? st id with
   | some i => (st, i)
   | none => (st ++ [id], st.length)
 
